@@ -181,6 +181,7 @@ class Keys(Family):
          </xs:sequence>
          <xs:attribute name="k" type="xs:int" use="required"/>
          <xs:attribute name="g" type="xs:string"/>
+         <xs:attribute name="tags"><xs:simpleType><xs:list itemType="xs:short"/></xs:simpleType></xs:attribute>
         </xs:complexType>
         <xs:unique name="partU">
          <xs:selector xpath="k:part"/>
@@ -200,6 +201,10 @@ class Keys(Family):
       <xs:selector xpath="k:item"/>
       <xs:field xpath="@k"/>
      </xs:key>
+     <xs:unique name="tagsU">
+      <xs:selector xpath="k:item"/>
+      <xs:field xpath="@tags"/>
+     </xs:unique>
      <xs:keyref name="refInSection" refer="k:itemInSection">
       <xs:selector xpath="k:ref"/>
       <xs:field xpath="@to"/>
@@ -236,7 +241,8 @@ class Keys(Family):
         for s in sections:
             out.append(f' <k:section sid="{s["sid"]}">\n')
             for it in s['items']:
-                a = f' k="{it["k"]}"' + (f' g="{it["g"]}"' if 'g' in it else '')
+                a = f' k="{it["k"]}"' + (f' g="{it["g"]}"' if 'g' in it else '') + \
+                    (f' tags="{it["tags"]}"' if 'tags' in it else '')
                 out.append(f'  <k:item{a}>')
                 if 'name' in it:
                     out.append(f'<k:name>{it["name"]}</k:name>')
@@ -313,6 +319,19 @@ class Keys(Family):
         secs, g = self._sections(rng, 2, 3)
         secs[1]['items'][1]['k'] = 'x1'
         out.append(Doc('keys-badint', self._build(secs), 'fault:lexical'))
+        # list-typed identity field: valid, duplicated in value space, and with a lexically bad item
+        secs, g = self._sections(rng, 2, 3)
+        secs[0]['items'][0]['tags'] = '1 2 3'
+        secs[0]['items'][2]['tags'] = '3 2 1'
+        out.append(Doc('keys-tags-valid', self._build(secs)))
+        secs, g = self._sections(rng, 2, 3)
+        secs[1]['items'][0]['tags'] = '1 02'
+        secs[1]['items'][1]['tags'] = '01 2'
+        out.append(Doc('keys-tags-dup', self._build(secs), 'fault:dup-unique'))
+        secs, g = self._sections(rng, 2, 3)
+        secs[0]['items'][1]['tags'] = '1 x 3'
+        secs[0]['items'][2]['tags'] = '4 5'
+        out.append(Doc('keys-tags-baditem', self._build(secs), 'fault:lexical'))
         return out
 
 
@@ -616,6 +635,8 @@ class Fixed(Family):
                        'fault:lexical'))
         out.append(Doc('fx-bad-list', self._doc([{'kids': [('l', '1 2 x!')]}]), 'fault:lexical'))
         out.append(Doc('fx-bad-prefix', self._doc([{'kids': [('q', 'nope:name')]}]), 'fault:lexical', True))
+        # the document binds urn:fx to another prefix: the QName defaults 'f:attr' are not resolvable
+        out.append(Doc('fx-otherprefix', self._doc([{'kids': [('d', '1.5')]}, {}], 'zz'), 'fault:prefix-scope', True))
         for d in out:
             d.prefix_dep = True   # fixed/default QName attributes are applied to every <e>
         return out
@@ -882,6 +903,19 @@ class Recur(Family):
         return (_decl() + '<n>' * (depth - 1) + '<n/>' + (side + '</n>') * (depth - 1)).encode()
 
     @staticmethod
+    def decorate(data, rng, n):
+        """Insert n comments / processing instructions (prolog, between elements, before the end)."""
+        import re
+        text = data.decode()
+        spots = [m.end() for m in re.finditer(r'\?>\n|<n[^>]*>|</n>', text)]
+        for _ in range(n):
+            k = rng.choice(spots)
+            ins = rng.choice(['<!--c-->', '<?pi x?>'])
+            text = text[:k] + ins + text[k:]
+            spots = [p + len(ins) if p >= k else p for p in spots]
+        return text.encode()
+
+    @staticmethod
     def wide(count):
         """a root with count-1 children: `count` elements in total."""
         return (_decl() + '<n>' + '<n v="1"/>' * (count - 1) + '</n>').encode()
@@ -1068,6 +1102,37 @@ class Big(Family):
             Doc('big-dangling-250', self._doc(250, dangling=True), 'fault:dangling'),
             Doc('big-valid-30', self._doc(30)),
         ]
+
+
+def double_fault(doc, rng, order='model-first'):
+    """A model violation (unexpected child of the root) and a content error in another sibling, in either
+    document order. Works on the one-root-child-per-line layout of the generated documents."""
+    import re
+    text = doc.data.decode('utf-8')
+    lines = text.split('\n')
+    kids = [i for i, ln in enumerate(lines) if ln.startswith(' <') and not ln.startswith(' </')]
+    if len(kids) < 2:
+        return None
+    i, j = sorted(rng.sample(kids, 2))
+    if order == 'content-first':
+        i, j = j, i
+    m = re.search(r'(?:="|>)[^"<>]*?(\d)', lines[j])
+    if not m:
+        return None
+    lines[j] = lines[j][:m.start(1)] + '!' + lines[j][m.start(1):]
+    lines[i] = ' <bogus/>\n' + lines[i]
+    return Doc(doc.name + '+double-' + order, '\n'.join(lines), 'fault:double', doc.prefix_dep)
+
+
+def with_double_faults(docs, rng, n=4):
+    out = list(docs)
+    valid = [d for d in docs if d.kind == 'valid']
+    for d in valid[:n]:
+        for order in ('model-first', 'content-first'):
+            x = double_fault(d, rng, order)
+            if x is not None:
+                out.append(x)
+    return out
 
 
 FAMILIES = {f.name: f for f in (Ids(), Keys(), XsiType(), Subst(), Fixed(), Wild(), Ns(), Mixed(),
